@@ -4,9 +4,9 @@
 import glob, json, os, re, shutil
 ROOT = "/verif/seeded"
 rows = []
-for d in sorted(glob.glob("/tmp/seed-C*/OUT/m*")):
-    name = d.replace("/tmp/seed-", "").replace("/OUT/", "-")
-    pid = name.split("-")[0]
+for d in sorted(glob.glob("/tmp/seed-C*/OUT/m*")) + sorted(glob.glob("/tmp/seed2-C*/OUT/m*")):
+    name = ("r2-" + d.replace("/tmp/seed2-", "") if d.startswith("/tmp/seed2-") else d.replace("/tmp/seed-", "")).replace("/OUT/", "-")
+    pid = name.replace("r2-", "").split("-")[0]
     dst = os.path.join(ROOT, name)
     os.makedirs(dst, exist_ok=True)
     for f in ("patch.diff", "demo.rs", "README.md"):
@@ -85,6 +85,27 @@ for d in sorted(glob.glob(os.path.join(ROOT, "revert-*"))):
     if res or extra or not os.path.exists(os.path.join(d, "meta.json")):
         json.dump(meta, open(os.path.join(d, "meta.json"), "w"), indent=1)
     rows.append((name, pid, json.load(open(os.path.join(d, "meta.json")))))
+# behaviour-preserving rewrites (false-alarm experiment)
+harmless = []
+for d in sorted(glob.glob("/tmp/seed-H*/OUT/m*")):
+    name = "harmless-" + d.replace("/tmp/seed-", "").replace("/OUT/", "-")
+    dst = os.path.join(ROOT, name)
+    os.makedirs(dst, exist_ok=True)
+    for f in ("patch.diff", "README.md"):
+        if os.path.exists(os.path.join(d, f)):
+            shutil.copy(os.path.join(d, f), os.path.join(dst, f))
+    key = name.replace("harmless-", "")
+    first = {}
+    for f in sorted(glob.glob(f"/tmp/seedres/harmless-{key}-C*.out")):
+        k = f.rsplit("-", 1)[1][:-4]
+        t = open(f).read()
+        first[k] = "VIOLATION" if "VIOLATION" in t else "ok"
+    meta = {"seed": name, "kind": "behaviour-preserving rewrite by a sub-agent (differentially tested against the original by its author)",
+            "all_twenty_quick_checks_first_run": first,
+            "alarms_on_first_run": sorted(k for k, v in first.items() if v != "ok"),
+            "after_corrections": "all twenty quick checks pass (see DESIGN §12 for the correction each alarm led to)"}
+    json.dump(meta, open(os.path.join(dst, "meta.json"), "w"), indent=1)
+    harmless.append((name, meta))
 with open(os.path.join(ROOT, "README.md"), "w") as f:
     f.write("# Seeded changes\n\nEach directory holds `patch.diff` (apply with `git -C /repo apply`), the demonstration `demo.rs` and `meta.json`.\n"
             "`mN` seeds were written by fresh sub-agents that saw only the property text; `revert-D*` are the six repaired defects put back.\n"
@@ -97,5 +118,8 @@ with open(os.path.join(ROOT, "README.md"), "w") as f:
             return f"{k}: " + ("input" if "replay input" in v else "no-input" if "no-failing" in v else "—")
         order = ([pid] if pid in ch else []) + [k for k in sorted(ch) if k != pid]
         f.write(f"| {name} | {pid} | {', '.join(short(k) for k in order)} |\n")
+    f.write("\n## Behaviour-preserving rewrites (false-alarm experiment)\n\n| rewrite | alarms on first run | after corrections |\n|---|---|---|\n")
+    for name, meta in harmless:
+        f.write(f"| {name} | {', '.join(meta['alarms_on_first_run']) or 'none'} | none |\n")
     f.write("\n`input` = VIOLATION with a concrete failing input as replay; `no-input` = VIOLATION … no-failing-input-found (correspondence broken, oracles of that property pass); `—` = that check stayed green (the change does not touch that property's projection).\n")
 print(len(rows), "seeds")
